@@ -198,6 +198,10 @@ def obligations(tier, seed):
     out = [r for r in out if r.get("name") not in ("kernel:BatchResponseBuilder::new_with_limit", "kernel:BatchResponseBuilder::finish")]
     out += _builder_end_to_end(core, tier)
     out += _limit_provenance(core)
+    # "however the server is assembled": the configured value survives every builder step
+    from .cfgframe import journey_obligations as _journey
+    _extra = _journey(R.bodies("server"), "max_response_body_size", "max_response_body_size", scenario="cfg_journey", fixed={"field": "max_response_body_size"})
+    out += _extra
     return out
 
 
